@@ -710,6 +710,15 @@ class Eval:
         base, name = callee.rsplit("::", 1) if "::" in callee else ("", callee)
         if "f32" in base or "f64" in base:
             return self.fmath(name, args[0], args[1:], n)
+        if callee in ("std::cmp::min", "std::cmp::max", "core::cmp::min", "core::cmp::max", "std::cmp::Ord::min", "std::cmp::Ord::max", "core::cmp::Ord::min", "core::cmp::Ord::max") \
+                and len(args) == 2 and args[0].is_int and args[1].is_int:
+            # the function form of the integer `a.min(b)` / `a.max(b)`
+            recv, a = args
+            if name == "min":
+                lbs = {s_ for s_ in recv.lbs if s_ in a.lbs}
+                return AV(min(recv.lo, a.lo), min(recv.hi, a.hi), False, lbs, recv.ubs | a.ubs, recv.ty)
+            ubs = {s_ for s_ in recv.ubs if s_ in a.ubs}
+            return AV(max(recv.lo, a.lo), max(recv.hi, a.hi), False, recv.lbs | a.lbs, ubs, recv.ty)
         raise ValueError("E2: unsupported call %s (%s)" % (callee, short(pretty(n), 80)))
 
     def fmath(self, name, x, args, n):
